@@ -64,10 +64,22 @@ func runLife(e *Env) {
 	cfg.ReconnectInterval = []time.Duration{0, time.Second}[tp.Next(2)]
 	cfg.ReconnectionPolicy = &gocql.ConstantReconnectionPolicy{MaxRetries: 2, Interval: 100 * time.Millisecond}
 	cfg.MaxWaitSchemaAgreement = 2 * time.Second
+	withRetry := tp.Chance(1, 2)
+	if withRetry {
+		// the queries of this scenario are not marked idempotent: whatever happens to
+		// their connection, each may reach servers at most once (C13)
+		cfg.RetryPolicy = &gocql.SimpleRetryPolicy{NumRetries: 2}
+	}
+	e.Note("retryPolicy", withRetry)
+	received := map[string]int{}
 
 	valMeta := &cqlspec.RowsMeta{GlobalSpec: true, Columns: []cqlspec.ColSpec{{Keyspace: "ks", Table: "t", Name: "v", Type: cqlspec.ColType{ID: cqlspec.TVarchar}}}}
 	cl.App = func(sc *node.SConn, rec *node.ReqRec) {
 		tok := tokenRe.FindString(rec.Req.Query)
+		received[tok]++
+		if received[tok] > 1 {
+			k.Violate("C13", "C13/non-idempotent-retried", "query %s is not marked idempotent but reached servers %d times (retry policy configured: %v)", tok, received[tok], withRetry)
+		}
 		fate := node.Hold
 		if !faultsOn {
 			fate = node.Auto
@@ -96,7 +108,7 @@ func runLife(e *Env) {
 	if faultsOn {
 		k.DrawPlan([]string{"rd.woke", "rd.beforeRefresh", "rd.stop", "ed.woke", "ed.stop", "sess.close.pool", "sess.close.control",
 			"sess.close.events", "sess.close.refresher", "sess.close.cancel", "ctl.heartbeat", "ctl.reconnect", "ctl.close",
-			"fill.upgrade", "fill.filling", "fill.stopping", "connect.dialed", "pool.handleError", "pool.close",
+			"fill.upgrade", "fill.filling", "fill.stopping", "connect.dialed", "connect.dialed", "connect.dialed", "pool.handleError", "pool.close",
 			"close.unlocked", "close.beforeCancel", "exec.afterWrite", "rd.woke", "rd.stop"}, 4, 6)
 	}
 
@@ -223,6 +235,25 @@ func runLife(e *Env) {
 				}})
 			}
 			acts = append(acts, kernel.Action{Key: "cut-handshake", Rank: 6, Weight: 1, Do: func() { cutNext++ }})
+			for _, h := range cl.Hosts {
+				h := h
+				acts = append(acts, kernel.Action{Key: "refuse-next:" + h.Addr, Rank: 6, Weight: 2, Do: func() {
+					k.Fault("dial.refuse-next-only")
+					if tp.Chance(1, 2) {
+						// let one dial through first (the synchronous first connection of a fill)
+						cl.Net.DialOnce(h.Addr, simnet.DialAccept)
+					}
+					cl.Net.DialOnce(h.Addr, simnet.DialRefuse)
+				}})
+				acts = append(acts, kernel.Action{Key: "lose-all:" + h.Addr, Rank: 6, Weight: 2, Do: func() {
+					k.Fault("poolconn.server-close-all")
+					for _, sc := range cl.SConns() {
+						if sc.C.Host == h.Addr && !sc.Dead && sc.C.Name != ctrl {
+							cl.CloseConn(sc, false)
+						}
+					}
+				}})
+			}
 			acts = append(acts, kernel.Action{Key: "event", Rank: 6, Weight: 3, Do: func() {
 				k.Fault("event.push")
 				h := cl.Hosts[tp.Next(len(cl.Hosts))]
@@ -235,7 +266,7 @@ func runLife(e *Env) {
 			return acts
 		})
 	}
-	k.FaultBudget = 6
+	k.FaultBudget = 8
 	k.TimeMenu = []time.Duration{10 * time.Millisecond, time.Millisecond, 100 * time.Millisecond, time.Second, 2 * time.Second}
 	k.PreStep = append(k.PreStep, func() {
 		cl.Process()
